@@ -178,7 +178,7 @@ func ZZ_C08_proposalValidation() {
 		terms.Timeout = zzTS(now.Add(time.Hour))
 	}
 	terms.GenesisTime = zzTS(time.Unix(1700000000+int64(zz.Choose("terms.genesis_delta", 2)), 0))
-	switch zz.Choose("terms.seed", 3) {
+	switch zz.Choose("terms.seed", zz.Param("seed_options", 3)) {
 	case 1:
 		terms.GenesisSeed = []byte("seed")
 	case 2:
@@ -187,8 +187,8 @@ func ZZ_C08_proposalValidation() {
 	roles := make([]int, 4)
 	roles[0] = zz.Choose("terms.role0", 4)             // me
 	roles[1] = []int{1, 3, 0, 2}[zz.Choose("terms.role1", zz.Param("role1_options", 3))] // a current member: remains, leaves, forgotten (or joins)
-	roles[2] = []int{1, 2}[zz.Choose("terms.role2", 2)] // remains or joins
-	roles[3] = []int{0, 2, 1}[zz.Choose("terms.role3", 3)] // the outsider: absent, joins, or wrongly listed as remaining
+	roles[2] = []int{1, 2}[zz.Choose("terms.role2", zz.Param("role2_options", 2))] // remains or joins
+	roles[3] = []int{0, 2, 1}[zz.Choose("terms.role3", zz.Param("role3_options", 3))] // the outsider: absent, joins, or wrongly listed as remaining
 	for i := 0; i < 4; i++ {
 		switch roles[i] {
 		case 1:
@@ -198,6 +198,21 @@ func ZZ_C08_proposalValidation() {
 		case 3:
 			terms.Leaving = append(terms.Leaving, w.parts[i])
 		}
+	}
+	// malformed lists: a participant listed twice (within one list or across two)
+	switch zz.Choose("terms.duplicate", 3) {
+	case 1:
+		terms.Leaving = append(terms.Leaving, w.parts[1])
+	case 2:
+		terms.Remaining = append(terms.Remaining, w.parts[1])
+	}
+	listed := func(list []*drand.Participant, i int) bool {
+		for _, p := range list {
+			if p.Address == w.parts[i].Address {
+				return true
+			}
+		}
+		return false
 	}
 	leader := zz.Choose("terms.leader", 2)
 	terms.Leader = w.parts[leader]
@@ -235,16 +250,16 @@ func ZZ_C08_proposalValidation() {
 		zz.Assert("first_epoch_no_seed", len(terms.GenesisSeed) == 0)
 	} else {
 		zz.Assert("reshare_has_remainers", len(terms.Remaining) > 0)
-		zz.Assert("reshare_leader_remains", roles[leader] == 1)
+		zz.Assert("reshare_leader_remains", listed(terms.Remaining, leader) && !listed(terms.Leaving, leader))
 	}
 	if hasGroup && from != Left && terms.Epoch > 1 {
 		// an existing member: the proposal must keep genesis parameters and account for every current member
 		zz.Assert("genesis_time_unchanged", terms.GenesisTime.AsTime().Unix() == 1700000000)
 		zz.Assert("genesis_seed_unchanged", bytes.Equal(terms.GenesisSeed, []byte("seed")))
 		for i := 0; i < 3; i++ {
-			zz.Assert("current_members_remain_or_leave", roles[i] == 1 || roles[i] == 3)
+			zz.Assert("current_members_remain_or_leave", listed(terms.Remaining, i) || listed(terms.Leaving, i))
 		}
-		zz.Assert("outsiders_only_join", roles[3] == 0 || roles[3] == 2)
+		zz.Assert("outsiders_only_join", !listed(terms.Remaining, 3) && !listed(terms.Leaving, 3))
 		zz.Assert("enough_remainers_for_old_threshold", len(terms.Remaining) >= 2)
 	}
 	zz.Assert("stored_epoch_never_decreases", next.Epoch >= curEpoch)
